@@ -22,6 +22,9 @@ PROCX = {"name": "procx", "crate": "procx", "bin": "procx", "kind": "verif", "ar
 TOPICX = {"name": "topicx", "crate": "topicx", "bin": "topicx", "kind": "verif", "args": [],
           "about": "E3 on the topic channel: controlled scheduler over real OS threads with scheduling points inside publish / subscribe / unsubscribe / close / clone (hook H8); DFS over schedules with preemption bound 2 (quick) / 3 (thorough); every history checked for linearizability against the routing model by brute force"}
 
+LOCKX = {"name": "lockx", "crate": "lockx", "bin": "lockx", "kind": "verif", "args": [],
+         "about": "E2 on the hybrid locks: exhaustive single-thread histories (try_*, uncontended blocking acquisitions, lock futures created/polled/re-polled/dropped, guards released in every order) on the real HybridMutex / HybridRwLock; oracles: mutual exclusion, value under guard, writer gate, idle-stall probe on a fully released lock"}
+
 CACHEX = {"name": "cachex", "crate": "cachex", "bin": "cachex", "kind": "verif", "args": [],
           "about": "E2: exhaustive operation / clock-step / maintenance histories on the real cache (virtual clock H1, no background threads H2) vs a register-per-key model; residency dump, synchronous listener pump"}
 
@@ -116,13 +119,13 @@ CHECKS = {
         "assumptions": ["parking_lot mutexes, atomics and channel operations inside the cache contain no scheduling point (atomic blocks)", "no spurious thread::park wakeups"],
     },
     "C10": {
-        "jobs": [LOOMX],
+        "jobs": [LOOMX, LOCKX],
         "level": "model_checking",
-        "level_text": "loom: every interleaving up to the preemption bound of 2–3 threads on HybridMutex / HybridRwLock (sync and async acquirers, try_*, future drop after wake) with the protected value in a loom cell: mutual exclusion, wake on release, writer gate, cancel-safe acquisition",
-        "level_note": "loom's bounded DPOR within the stated preemption bound; loom is vendored with four documented patches (RMW atomicity, park token, coroutine pool, SeqCst-load rule) that a litmus self-test guards on every run; memory-model effects loom does not model are out of scope",
-        "technique": "stateless exploration of thread interleavings of the real lock code under loom with preemption bounding",
+        "level_text": "lockx: every single-thread history up to the depth over try_* / uncontended blocking acquisitions / lock futures (created and polled, re-polled with a fresh waker, dropped) / guard releases on the real locks — mutual exclusion, writer gate, and the idle-stall probe (a fully released lock with nobody woken must not leave a pending future able to acquire); loom: every interleaving up to the preemption bound of 2–3 threads on HybridMutex / HybridRwLock (sync and async acquirers, try_*, future drop after wake) with the protected value in a loom cell: mutual exclusion, wake on release, writer gate, cancel-safe acquisition",
+        "level_note": "lockx trusts its 40-line bookkeeping of live guards and pending futures; loom's bounded DPOR within the stated preemption bound; loom is vendored with four documented patches (RMW atomicity, park token, coroutine pool, SeqCst-load rule) that a litmus self-test guards on every run; memory-model effects loom does not model are out of scope",
+        "technique": "stateless exhaustive DFS over operation/poll/drop histories of the real locks; stateless exploration of thread interleavings of the real lock code under loom with preemption bounding",
         "design_ref": "§4 C10, §2 E1",
-        "rule": "all loom executions of the lock shapes listed in the scenarios (2t/3t lock, sync vs async, woken future dropped, try_* under contention, reader/writer mixes, writer gate) at preemption bound 2/1 (quick) and 4/2 (thorough); non-trivial = ≥2 distinct outcomes and overlapping operations in the event log",
+        "rule": "lockx: all histories up to depth d (mutex 10 quick / 12 thorough, rwlock 8 / 10) with ≤3 pending futures and ≤3 live guards, each re-executed on a fresh lock; non-trivial = a future went pending and was re-polled or dropped, and a guard was released. loomx: all loom executions of the lock shapes listed in the scenarios (2t/3t lock, sync vs async, woken future dropped, try_* under contention, reader/writer mixes, writer gate) at preemption bound 2/1 (quick) and 4/2 (thorough); non-trivial = ≥2 distinct outcomes and overlapping operations in the event log",
         "assumptions": ["Duration::ZERO stands in for timeouts (loom has no clock)"],
     },
     "C14": {
